@@ -55,9 +55,11 @@ def _scenario_input(bits, n):
         out.append(Scenario("A_out\n(%s)\n" % lit(n), [("in", "A_out", bits, 0), ("bidir", "A", ow, "Z")], default_answer=[0],
                             expect={"sig": "A_out", "want": w}, note="column shared with a bidirectional signal of width %d" % ow))
     # the caller changes the signal's width (a public field of the bound test) before running: the width in force is the signal's
-    for nb in sorted(set((bits, 16, 64, 3)) - {bits} if True else ()):
-        out.append(Scenario("A\n(%s)\n" % lit(n), [("in", "A", bits, 0)], set_bits=[("A", nb)],
-                            expect={"sig": "A", "want": str(_want(nb, n))}, note="width of A changed from %d to %d after binding" % (bits, nb)))
+    for nb in sorted(set((16, 64, 3)) - {bits}):
+        for v in (n, 0x12345, -1):
+            out.append(Scenario("A\n(%s)\n" % lit(v), [("in", "A", bits, 0)], set_bits=[("A", nb)],
+                                expect={"sig": "A", "want": str(_want(nb, v))},
+                                note="width of A changed from %d to %d after binding, value %d" % (bits, nb, v)))
     # the same value on consecutive rows with a failing row in between: what is handed over is the row's own value
     out.append(Scenario("A\n5\n(%s)\n(%s)\n5\n" % (lit(n), lit(n)), [("in", "A", bits, 0)], fail_at=[2], stop_on_err=False,
                         expect={"handed": ["0" if False else str(_want(bits, 5)), w, w, str(_want(bits, 5))]},
